@@ -541,6 +541,34 @@ def register(M):
         return option(S.Ult(idx, v.length), cx.ref(e, 'elem')), S.TRUE
     R('slice::get|Vec::get', vec_get)
 
+    def as_slice(ex, fr, c, a, st, pc):
+        return a[0], S.TRUE
+    R('Vec::as_slice|Vec::as_mut_slice|<Vec as AsRef>::as_ref|<Vec as Borrow>::borrow', as_slice)
+
+    def split_first_last(which):
+        def f(ex, fr, c, a, st, pc):
+            from .models import select
+            v = deep(st, a[0])
+            if not isinstance(v, VecV):
+                raise Unsupported('%s on %r' % (which, v))
+            cx = Ctx(ex, st, pc)
+            has = S.Not(S.Eq(v.length, b64(0)))
+            if not v.cells:
+                return none(), S.TRUE
+            n1 = S.Sub(v.length, b64(1))
+            if which == 'split_first':
+                e = v.cells[0]
+                rest = VecV(v.cells[1:], n1)
+            else:
+                e = select(v.cells, n1)
+                rest = VecV(v.cells, n1)
+            if e is UNDEF:
+                return none(), S.TRUE
+            return option(has, (cx.ref(e, 'elem'), cx.ref(rest, 'rest'))), cx.st, S.TRUE
+        return f
+    R('slice::split_first', split_first_last('split_first'))
+    R('slice::split_last', split_first_last('split_last'))
+
     def vec_from_iter(ex, fr, c, a, st, pc):
         return collect(ex, fr, 'collect::<Vec>', a, st, pc)
     R('<Vec as FromIterator>::from_iter', vec_from_iter)
